@@ -39,12 +39,50 @@ def run(tier):
                 c.violation("model:%s:%s" % (mod, bad), "design-level invariant %s violated" % bad, {"tlc_tail": r.out[-3000:]})
         cases = pygen.py_cases()
         plan = pygen.make_plan(cases, 4 if thorough else 2, rng) + pygen.class_plan()
+        # the wide member of the TLA+ grammar (specs/LibGenPairs.tla) restricted to the rows the Python plan can
+        # drive, with a default value on every trailing by-value parameter: every pairing of argument kinds, each
+        # called with and without its defaulted argument, positionally and by keyword
+        from rt import libgen
+        wide = libgen.cases_of(libgen.wide_library(pygen.PY_ROWS & libgen.cfg_sets()["PyRows"], defaults=True),
+                               pygen.PY_ROWS, pygen.PY_RESULTS)
+        wplan = pygen.make_plan(wide, 3 if thorough else 1, rng)
         with common.scratch("c03-") as d:
             ok, err = pygen.build_ext(d, cases)
             if ok is None:
                 c.violation("build", "extension does not build: " + err, {"error": err})
                 c.finish()
             res = pygen.run_plan(d, plan)
+            dw = os.path.join(d, "wide")
+            ok, err = pygen.build_ext(dw, wide)
+            dropped = []
+            KNOWN = ("declared as reference but not initialized", "SH_a' was not declared in this scope",
+                     "SH_b' was not declared in this scope")
+            if ok is None and any(k in err.replace("\u2018", "'").replace("\u2019", "'") for k in KNOWN):
+                # known findings recorded under C05 (Python wrapper of a 'const std::string &' result whose call can
+                # 'goto fail' declares an uninitialised reference; std::string inout/out argument together with a
+                # default argument is declared inside the case block and used after it): those functions cannot be
+                # compiled, so they cannot be called either; the rest of the library is still driven
+                import re
+                full = open(os.path.join(dw, "compile.log")).read() if os.path.exists(os.path.join(dw, "compile.log")) else err
+                cur, badf = None, set()
+                for line in full.splitlines():
+                    m = re.search(r"In function .*\bPY_(\w+?)(?:_\d+)?\(", line)
+                    if m:
+                        cur = m.group(1)
+                    if any(k in line.replace("\u2018", "'").replace("\u2019", "'") for k in KNOWN) and cur:
+                        badf.add(cur)
+                dropped = sorted(badf)
+                wide = [x for x in wide if x["name"] not in badf]
+                wplan = pygen.make_plan(wide, 3 if thorough else 1, rng)
+                import shutil
+                shutil.rmtree(dw, ignore_errors=True)
+                ok, err = pygen.build_ext(dw, wide)
+            c.part("wide", functions=len(wide), not_compilable_known_finding_C05=dropped)
+            if ok is None:
+                c.violation("build-wide", "extension of the wide library does not build: " + err[:600], {"error": err})
+                c.finish()
+            res += pygen.run_plan(dw, wplan)
+        plan = plan + wplan
         traces = []
         for p, r in zip(plan, res):
             if r is None:
@@ -78,6 +116,15 @@ def run(tier):
                 key = "call:%s:%s:%s" % (name, shape, d0[:50])
                 if d0.startswith("exception raised after"):
                     key = "call:%s:exception-after-call:%s" % (name, t["exc"])
+                    # the known PY_SSIZE_T_CLEAN finding is a class of signatures, not one function: the call
+                    # returns a tuple (two or more values) one of which is a std::string ("s#" in Py_BuildValue)
+                    sigs = [cd["sig"] for cd in t["cands"]]
+                    def tuple_with_string(sg):
+                        outs = ([sg["result"]] if sg["result"] != "none" else []) + \
+                               [q["ty"] for q in sg["params"] if q["intent"] in ("out", "inout")]
+                        return len(outs) >= 2 and "str" in outs
+                    if t["exc"] == "SystemError" and all(tuple_with_string(sg) for sg in sigs):
+                        key = "call:tuple-with-string:exception-after-call:SystemError"
                 c.violation(key, "%s -> %s (exception %r, returned %r)" % (p["label"], detail, t["exc"], t["ret"]),
                             {"call": p["label"], "detail": detail, "exception": t["exc"], "library_events": t["events"], "returned": t["ret"],
                              "crashed": res[i]["crashed"]})
